@@ -395,6 +395,11 @@ def periodic(case):
     return all(c["kind"] == "dihedral" and abs(c["coeff"]) == 1.0 for c in case["comps"])
 
 
+def applies(case, t):
+    """some bias applies a force to the variable at step t (f_cv_apply_force)"""
+    return case["bias"]["type"] != "none" and not case["steps"][t].get("off")
+
+
 def bias_force(case, value):
     b = case["bias"]
     if b["type"] == "none":
@@ -460,7 +465,8 @@ def model_line(case, isteps):
     for t, s in enumerate(case["steps"]):
         p.append(vl(s["pos"]))
         p.append(vl(step_eforce(case, isteps, t)))
-        p.append(hx(0.0 if s.get("off") else bias_force(case, isteps[t]["cv"].get("v", float("nan")))))
+        p.append(hx(bias_force(case, isteps[t]["cv"].get("v", float("nan"))) if applies(case, t) else 0.0))
+        p.append("1" if applies(case, t) else "0")
         for ci in rot_indices(case):
             p.append(rot_txt(isteps[t].get("rot", {}).get(ci, [1.0, 0.0, 0.0, 0.0, 0.0, 0]), True))
     return " ".join(p)
@@ -624,7 +630,6 @@ def gen_case(r, idx, typ=None, kinds=None):
         case["bias"] = {"type": "harmonic", "k": r.choice([0.5, 1.0, 2.0]), "c": V.dyadic(r, -2, 6, bits=2)}
     if typ in ("LIN", "LOC", "TIM", "RND") and r.random() < 0.15:
         case["bias"] = {"type": "none"}         # plain measurement: no bias applies a force to the variable
-        case["hide"] = False
     if case["foreign"] and r.random() < 0.15:
         case["late"] = r.randint(1, 2)          # the variable is defined after `late` steps of the run
     if periodic(case) and case["bias"]["type"] != "none":      # a linear bias is refused on a periodic variable
@@ -676,7 +681,6 @@ def gen_case(r, idx, typ=None, kinds=None):
     elif typ == "OFF":
         # the bias applies its force at some steps only (apply_force switched off and on again while the variable stays
         # active and measured): the applied force is zero between non-zero ones
-        case["hide"] = False
         if case["bias"]["type"] == "none":
             case["bias"] = {"type": "linear", "k": 2.0}
         if not case["same"]:
@@ -790,7 +794,8 @@ def oracle(case, isteps):
             if case["same"]:
                 exp = f + (0.0 if case["hide"] else fj)
             else:
-                exp = f + (fj if adds_fj(case) else 0.0) - (f if case["sub"] else 0.0)
+                comp = case["hide"] and applies(case, s0)
+                exp = f + (fj if not (case["hide"] and (case["sub"] or not comp)) else 0.0) - (f if case["sub"] else 0.0)
             if not close(tfs[t], exp, 1e-8):
                 tag = "hidden" if case["hide"] else ("T0" if case["T"] == 0 else "jacobian")
                 out.append(("inverse:%s:%s:%s%s" % (kd, mode, tag, ":subtract" if case["sub"] else ""),
@@ -850,7 +855,7 @@ def oracle_twin(case, isteps, twin_steps):
         if case["same"] or t == 0:
             exp = 0.0
         else:
-            exp = on[t - 1]["af"]["v"] + (doc_fj(case, case["steps"][t - 1]["pos"]) if case["hide"] else 0.0)
+            exp = on[t - 1]["af"]["v"] + (doc_fj(case, case["steps"][t - 1]["pos"]) if (case["hide"] and applies(case, t - 1)) else 0.0)
         if not close(a - b, exp, 1e-8):
             out.append(("subtract:%s:%s%s" % (kd, "samestep" if case["same"] else "lagged", ":hidden" if case["hide"] else ""),
                         "step %d: total force without / with subtractAppliedForce %r / %r, difference %r; Colvars' own applied force "
